@@ -1,8 +1,80 @@
 package main
 
-import "fmt"
+import (
+	"fmt"
+	"os"
+	"path/filepath"
 
+	"pgregory.net/rapid"
+
+	"icesim/model"
+	"icesim/sim"
+)
+
+// goldenMain regenerates the golden corpus with the frozen REFERENCE writer
+// (never the code under test). Run by hand once; the corpus is committed.
 func goldenMain(a []string) int {
-	fmt.Println("not implemented yet")
-	return 2
+	if err := os.MkdirAll(sim.GoldenDir, 0o755); err != nil {
+		fmt.Fprintln(os.Stderr, err)
+		return 2
+	}
+	old, _ := filepath.Glob(filepath.Join(sim.GoldenDir, "*"))
+	for _, f := range old {
+		os.Remove(f)
+	}
+	n := 0
+	total := 0
+	for seed := 1; seed <= 400 && n < 48; seed++ {
+		o := sim.WorldOpts{MinBuilds: 1, MaxBuilds: 3, MaxMerges: 2, BigPct: 0, AllowNoID: true, MoreDV: true, MaxTinyDocs: 8}
+		if seed%9 == 0 {
+			o.BigPct, o.HugePct, o.MaxBuilds, o.MaxMerges = 100, 50, 1, 1
+		}
+		gen := rapid.Custom(func(t *rapid.T) *sim.WorldDef { return sim.GenWorld(t, o) })
+		wd := gen.Example(seed)
+		sched := sim.NewSched(nil)
+		w, fail := sim.BuildWorldWith(sim.RefImpl, "C10", wd, sched)
+		if fail != nil {
+			fmt.Fprintln(os.Stderr, "reference build failed:", fail)
+			return 2
+		}
+		for _, ws := range w.Segs {
+			if len(ws.Docs) == 0 && seed%5 != 0 {
+				continue // keep only a few empty ones
+			}
+			if len(ws.Bytes) > 400000 {
+				continue
+			}
+			seg, _, _, pi, err := sim.LoadViewWith(sim.RefImpl, ws.Bytes, sim.StoreMem, sched)
+			if pi != nil || err != nil {
+				fmt.Fprintln(os.Stderr, "reference load failed", pi, err)
+				return 2
+			}
+			obs, f := sim.Observe("C10", seg, sim.ObsOpts{})
+			if f != nil {
+				fmt.Fprintln(os.Stderr, "reference observe failed:", f)
+				return 2
+			}
+			if d := model.Diff(obs, ws.Exp()); d != "" {
+				fmt.Fprintf(os.Stderr, "seed %d seg %d: reference observation differs from the model: %s\n", seed, ws.Idx, d)
+				return 2
+			}
+			kind := "built"
+			if ws.Kind == model.Merged {
+				kind = "merged"
+			}
+			base := filepath.Join(sim.GoldenDir, fmt.Sprintf("g%03d-s%d-%s-%ddocs-mode%d", seed, ws.Idx, kind, len(ws.Docs), sim.MergeModeOrBuild(ws)))
+			if err := os.WriteFile(base+".ice", ws.Bytes, 0o644); err != nil {
+				fmt.Fprintln(os.Stderr, err)
+				return 2
+			}
+			if err := sim.WriteGz(base+".obs.json.gz", obs); err != nil {
+				fmt.Fprintln(os.Stderr, err)
+				return 2
+			}
+			n++
+			total += len(ws.Bytes)
+		}
+	}
+	fmt.Printf("golden corpus: %d files, %d bytes of segment data\n", n, total)
+	return 0
 }
